@@ -172,6 +172,8 @@ def make_evo(arr, mode="se3", stamped=True, meta=None, flavour="array64"):
     from evo.core.trajectory import PosePath3D, PoseTrajectory3D
     if mode == "se3":
         poses = [rm.se3(R, p) for R, p in zip(arr["R"], arr["p"])]
+        if flavour == "stacked":
+            poses = np.stack(poses)  # one N x 4 x 4 array instead of a list of matrices
         if stamped:
             ts = np.array(arr["t"], dtype=float)
             return PoseTrajectory3D(poses_se3=poses, timestamps=ts.tolist() if flavour == "lists" else ts,
@@ -193,7 +195,7 @@ def make_evo(arr, mode="se3", stamped=True, meta=None, flavour="array64"):
 
 def rand_flavour(rng):
     u = rng.random()
-    return "lists" if u < .15 else "int" if u < .3 else "array64"
+    return "lists" if u < .15 else "int" if u < .3 else "stacked" if u < .45 else "array64"
 
 
 def read_views(traj):
